@@ -9,3 +9,5 @@ import JugModel.Props.WorkerBridge
 #print axioms Jug.C02.stored_never_started
 #print axioms Jug.C02.exactly_once_if_stored
 #print axioms Jug.WorkerBridge.worker_conforms
+#print axioms Jug.C02.at_most_once_general
+#print axioms Jug.C02.at_most_once_uninterrupted
